@@ -6,15 +6,22 @@
 //
 // Line kinds (one self-contained script per line):
 //
-//	tp <gen> <kinds> <opt> | reg:i unr:i sd:c ff:c tr:k st:k:j en:j sp:k psd:i … => <obs> …
-//	gtp <gen> <kinds> | <tp ops> endg:j:k <tp ops> rel … => <obs> …     forced schedule: `endg:j:k` Ends span slot j in a
-//	               goroutine whose delivery parks inside OnEnd of recording processor k (obs `parked…`; `-…` if the End
-//	               ran through), the following ops run while that End is mid-delivery, `rel` releases it and waits for
-//	               the End to return (a panic inside End is recovered and observed as `panic`)
-//	lp <gen> <kinds> | lg:k em:k ff:c sd:c … => <obs> …
-//	mp <gen> <kinds> | mt:k ad:k co:i ff:c sd:c … => <obs> …
-//	ctp|clp|cmp <gen> <kinds> | <prefix ops> ! <ops run by concurrent callers> ! <suffix ops>
-//	               => <prefix obs> ! <results of the callers> ! <one obs: deltas over the concurrent phase> ! <suffix obs>
+//		tp <gen> <kinds> <opt> | reg:i unr:i sd:c ff:c tr:k st:k:j en:j sp:k psd:i … => <obs> …
+//		gtp <gen> <kinds> | <tp ops> endg:j:k <tp ops> rel … => <obs> …     forced schedule: `endg:j:k` Ends span slot j in a
+//		               goroutine whose delivery parks inside OnEnd of recording processor k (obs `parked…`; `-…` if the End
+//		               ran through), the following ops run while that End is mid-delivery, `rel` releases it and waits for
+//		               the End to return (a panic inside End is recovered and observed as `panic`)
+//		lp <gen> <kinds> | lg:k em:k ff:c sd:c … => <obs> …
+//		mp <gen> <kinds> | mt:k ad:k co:i ff:c sd:c … => <obs> …
+//		ctp|clp|cmp <gen> <kinds> | <prefix ops> ! <ops run by concurrent callers> ! <suffix ops>
+//		               => <prefix obs> ! <results of the callers> ! <one obs: deltas over the concurrent phase> ! <suffix obs>
+//
+//	  rtp|rlp|rmp <gen> <kinds with hooks> | <ops> => <obs> …                 RE-ENTRANT user callbacks: a component `k@c=act[@c=act…]`
+//	                 runs `act` from inside its callback `c` — callbacks: a OnStart, e OnEnd/OnEmit, f ForceFlush, s Shutdown,
+//	                 x Export (exporters of sr/br/p); actions: sp start+end a span / em emit a record / ad Add(1) with a tracer /
+//	                 logger / counter obtained right after the provider was built, ff provider.ForceFlush(background). Hooks run
+//	                 only at depth 0 (a hook's own telemetry does not trigger hooks). Every call must return: the child's
+//	                 watchdog turns a script that does not finish within 3 s (6 s when confirming) into the observation `hang`.
 //
 // kinds: comma list; trace/log: r sr sn br bn (recording processor, simple/batch around a recording / nil exporter);
 //
@@ -79,47 +86,104 @@ type gateCtl struct {
 	release chan struct{}
 }
 
+// hookCtl: re-entrant user callbacks. A component with hooks runs the action named for a callback from inside that
+// callback — only at depth 0, so that the telemetry a hook produces does not trigger hooks again.
+type hookCtl struct {
+	depth atomic.Int32
+	do    func(action string)
+}
+
+type hooks struct {
+	m  map[byte]string
+	hk *hookCtl
+}
+
+func (h hooks) fire(cb byte) {
+	if h.hk == nil || h.m == nil {
+		return
+	}
+	if act, ok := h.m[cb]; ok && h.hk.depth.CompareAndSwap(0, 1) {
+		h.hk.do(act)
+		h.hk.depth.Store(0)
+	}
+}
+
+// parseHooks splits `sr@s=sp@x=ff` into the kind and its hooks.
+func parseHooks(kk string, hk *hookCtl) (string, hooks) {
+	parts := strings.Split(kk, "@")
+	h := hooks{hk: hk}
+	for _, p := range parts[1:] {
+		if len(p) >= 3 && p[1] == '=' {
+			if h.m == nil {
+				h.m = map[byte]string{}
+			}
+			h.m[p[0]] = p[2:]
+		}
+	}
+	return parts[0], h
+}
+
 type recSpanProc struct {
 	c   *cnt
 	idx int
 	g   *gateCtl
+	h   hooks
 }
 
-func (p recSpanProc) OnStart(context.Context, sdktrace.ReadWriteSpan) { p.c.a.Add(1) }
+func (p recSpanProc) OnStart(context.Context, sdktrace.ReadWriteSpan) { p.c.a.Add(1); p.h.fire('a') }
 func (p recSpanProc) OnEnd(sdktrace.ReadOnlySpan) {
 	p.c.e.Add(1)
 	if p.g != nil && p.g.armed.CompareAndSwap(int32(p.idx+1), 0) {
 		p.g.parked <- struct{}{}
 		<-p.g.release
 	}
+	p.h.fire('e')
 }
-func (p recSpanProc) ForceFlush(context.Context) error { p.c.f.Add(1); return nil }
-func (p recSpanProc) Shutdown(context.Context) error   { p.c.s.Add(1); return nil }
+func (p recSpanProc) ForceFlush(context.Context) error { p.c.f.Add(1); p.h.fire('f'); return nil }
+func (p recSpanProc) Shutdown(context.Context) error   { p.c.s.Add(1); p.h.fire('s'); return nil }
 
-type recSpanExp struct{ c *cnt }
+type recSpanExp struct {
+	c *cnt
+	h hooks
+}
 
 func (x recSpanExp) ExportSpans(_ context.Context, s []sdktrace.ReadOnlySpan) error {
 	x.c.n.Add(int64(len(s)))
+	x.h.fire('x')
 	return nil
 }
-func (x recSpanExp) Shutdown(context.Context) error { x.c.s.Add(1); return nil }
+func (x recSpanExp) Shutdown(context.Context) error { x.c.s.Add(1); x.h.fire('s'); return nil }
 
-type recLogProc struct{ c *cnt }
+type recLogProc struct {
+	c *cnt
+	h hooks
+}
 
-func (p recLogProc) OnEmit(context.Context, *sdklog.Record) error { p.c.e.Add(1); return nil }
-func (p recLogProc) ForceFlush(context.Context) error             { p.c.f.Add(1); return nil }
-func (p recLogProc) Shutdown(context.Context) error               { p.c.s.Add(1); return nil }
+func (p recLogProc) OnEmit(context.Context, *sdklog.Record) error {
+	p.c.e.Add(1)
+	p.h.fire('e')
+	return nil
+}
+func (p recLogProc) ForceFlush(context.Context) error { p.c.f.Add(1); p.h.fire('f'); return nil }
+func (p recLogProc) Shutdown(context.Context) error   { p.c.s.Add(1); p.h.fire('s'); return nil }
 
-type recLogExp struct{ c *cnt }
+type recLogExp struct {
+	c *cnt
+	h hooks
+}
 
 func (x recLogExp) Export(_ context.Context, r []sdklog.Record) error {
 	x.c.n.Add(int64(len(r)))
+	x.h.fire('x')
 	return nil
 }
-func (x recLogExp) ForceFlush(context.Context) error { x.c.f.Add(1); return nil }
-func (x recLogExp) Shutdown(context.Context) error   { x.c.s.Add(1); return nil }
+func (x recLogExp) ForceFlush(context.Context) error { x.c.f.Add(1); x.h.fire('f'); return nil }
+func (x recLogExp) Shutdown(context.Context) error   { x.c.s.Add(1); x.h.fire('s'); return nil }
 
-type recMetricExp struct{ c *cnt }
+type recMetricExp struct {
+	c *cnt
+	h hooks
+}
 
 func (x recMetricExp) Temporality(sdkmetric.InstrumentKind) metricdata.Temporality {
 	return metricdata.CumulativeTemporality
@@ -129,10 +193,11 @@ func (x recMetricExp) Aggregation(k sdkmetric.InstrumentKind) sdkmetric.Aggregat
 }
 func (x recMetricExp) Export(context.Context, *metricdata.ResourceMetrics) error {
 	x.c.n.Add(1)
+	x.h.fire('x')
 	return nil
 }
-func (x recMetricExp) ForceFlush(context.Context) error { x.c.f.Add(1); return nil }
-func (x recMetricExp) Shutdown(context.Context) error   { x.c.s.Add(1); return nil }
+func (x recMetricExp) ForceFlush(context.Context) error { x.c.f.Add(1); x.h.fire('f'); return nil }
+func (x recMetricExp) Shutdown(context.Context) error   { x.c.s.Add(1); x.h.fire('s'); return nil }
 
 // ---------------------------------------------------------------- helpers
 
@@ -276,6 +341,9 @@ type tpRun struct {
 	regs []int
 	shut bool
 	must []bool
+	// re-entrant callbacks
+	hk         *hookCtl
+	hookTracer trace.Tracer
 }
 
 func newTP(kinds []string, optN int, ops []string) (*tpRun, int) {
@@ -283,16 +351,28 @@ func newTP(kinds []string, optN int, ops []string) (*tpRun, int) {
 		regs: make([]int, len(kinds)), must: make([]bool, len(kinds)),
 		gate: &gateCtl{parked: make(chan struct{}), release: make(chan struct{})}}
 	far := sdktrace.WithBatchTimeout(time.Hour)
+	r.hk = &hookCtl{do: func(act string) {
+		switch act {
+		case "sp":
+			_, s := r.hookTracer.Start(context.Background(), "h")
+			s.End()
+		case "ff":
+			r.tp.ForceFlush(context.Background())
+		}
+	}}
+	r.kinds = make([]string, len(kinds))
 	for i, kk := range kinds {
 		var p sdktrace.SpanProcessor
+		kk, h := parseHooks(kk, r.hk)
 		k, kopts, _ := strings.Cut(kk, "+")
+		r.kinds[i] = k
 		switch k {
 		case "sr":
-			p = sdktrace.NewSimpleSpanProcessor(recSpanExp{r.w.cs[i]})
+			p = sdktrace.NewSimpleSpanProcessor(recSpanExp{r.w.cs[i], h})
 		case "sn":
 			p = sdktrace.NewSimpleSpanProcessor(nil)
 		case "br":
-			p = sdktrace.NewBatchSpanProcessor(recSpanExp{r.w.cs[i]}, far)
+			p = sdktrace.NewBatchSpanProcessor(recSpanExp{r.w.cs[i], h}, far)
 		case "bn":
 			bo := []sdktrace.BatchSpanProcessorOption{far}
 			if strings.Contains(kopts, "t") {
@@ -306,7 +386,7 @@ func newTP(kinds []string, optN int, ops []string) (*tpRun, int) {
 			}
 			p = sdktrace.NewBatchSpanProcessor(nil, bo...)
 		default:
-			p = recSpanProc{r.w.cs[i], i, r.gate}
+			p = &recSpanProc{r.w.cs[i], i, r.gate, h}
 		}
 		r.pool = append(r.pool, p)
 	}
@@ -327,6 +407,7 @@ func newTP(kinds []string, optN int, ops []string) (*tpRun, int) {
 		}
 	}
 	r.tp = sdktrace.NewTracerProvider(opts...)
+	r.hookTracer = r.tp.Tracer("hook") // obtained before any op: stays an SDK tracer after Shutdown
 	return r, used
 }
 
@@ -505,11 +586,13 @@ func (r *tpRun) close() {
 // ---------------------------------------------------------------- logger provider
 
 type lpRun struct {
-	w       *world
-	lp      *sdklog.LoggerProvider
-	loggers map[int]otellog.Logger
-	fuzzy   bool
-	raced   bool // a ForceFlush / Shutdown with a done context has been made
+	w          *world
+	lp         *sdklog.LoggerProvider
+	loggers    map[int]otellog.Logger
+	fuzzy      bool
+	raced      bool // a ForceFlush / Shutdown with a done context has been made
+	hk         *hookCtl
+	hookLogger otellog.Logger
 }
 
 func (r *lpRun) track(tok string) {
@@ -530,16 +613,27 @@ func newLP(kinds []string) *lpRun {
 	r := &lpRun{w: newWorld(len(kinds)), loggers: map[int]otellog.Logger{}}
 	var opts []sdklog.LoggerProviderOption
 	far := sdklog.WithExportInterval(time.Hour)
+	r.hk = &hookCtl{do: func(act string) {
+		switch act {
+		case "em":
+			var rec otellog.Record
+			rec.SetBody(otellog.StringValue("h"))
+			r.hookLogger.Emit(context.Background(), rec)
+		case "ff":
+			r.lp.ForceFlush(context.Background())
+		}
+	}}
 	for i, kk := range kinds {
 		var p sdklog.Processor
+		kk, h := parseHooks(kk, r.hk)
 		k, kopts, _ := strings.Cut(kk, "+")
 		switch k {
 		case "sr":
-			p = sdklog.NewSimpleProcessor(recLogExp{r.w.cs[i]})
+			p = sdklog.NewSimpleProcessor(recLogExp{r.w.cs[i], h})
 		case "sn":
 			p = sdklog.NewSimpleProcessor(nil)
 		case "br":
-			p = sdklog.NewBatchProcessor(recLogExp{r.w.cs[i]}, far)
+			p = sdklog.NewBatchProcessor(recLogExp{r.w.cs[i], h}, far)
 			r.fuzzy = true
 		case "bn":
 			bo := []sdklog.BatchProcessorOption{far}
@@ -555,11 +649,12 @@ func newLP(kinds []string) *lpRun {
 			p = sdklog.NewBatchProcessor(nil, bo...)
 			r.fuzzy = true
 		default:
-			p = recLogProc{r.w.cs[i]}
+			p = recLogProc{r.w.cs[i], h}
 		}
 		opts = append(opts, sdklog.WithProcessor(p))
 	}
 	r.lp = sdklog.NewLoggerProvider(opts...)
+	r.hookLogger = r.lp.Logger("hook")
 	return r
 }
 
@@ -606,12 +701,14 @@ func (r *lpRun) close() { r.lp.Shutdown(context.Background()) }
 // ---------------------------------------------------------------- meter provider
 
 type mpRun struct {
-	w       *world
-	mp      *sdkmetric.MeterProvider
-	readers []sdkmetric.Reader
-	meters  map[int]metric.Meter
-	fuzzy   bool
-	raced   bool
+	w           *world
+	mp          *sdkmetric.MeterProvider
+	readers     []sdkmetric.Reader
+	meters      map[int]metric.Meter
+	fuzzy       bool
+	raced       bool
+	hk          *hookCtl
+	hookCounter metric.Int64Counter
 }
 
 func (r *mpRun) track(tok string) {
@@ -630,10 +727,19 @@ func (r *mpRun) settle() bool {
 func newMP(kinds []string) *mpRun {
 	r := &mpRun{w: newWorld(len(kinds)), meters: map[int]metric.Meter{}}
 	var opts []sdkmetric.Option
-	for i, k := range kinds {
+	r.hk = &hookCtl{do: func(act string) {
+		switch act {
+		case "ad":
+			r.hookCounter.Add(context.Background(), 1)
+		case "ff":
+			r.mp.ForceFlush(context.Background())
+		}
+	}}
+	for i, kk := range kinds {
 		var rd sdkmetric.Reader
+		k, h := parseHooks(kk, r.hk)
 		if k == "p" {
-			rd = sdkmetric.NewPeriodicReader(recMetricExp{r.w.cs[i]}, sdkmetric.WithInterval(time.Hour))
+			rd = sdkmetric.NewPeriodicReader(recMetricExp{r.w.cs[i], h}, sdkmetric.WithInterval(time.Hour))
 			r.fuzzy = true
 		} else {
 			rd = sdkmetric.NewManualReader()
@@ -642,6 +748,7 @@ func newMP(kinds []string) *mpRun {
 		opts = append(opts, sdkmetric.WithReader(rd))
 	}
 	r.mp = sdkmetric.NewMeterProvider(opts...)
+	r.hookCounter, _ = r.mp.Meter("hook").Int64Counter("h")
 	return r
 }
 
@@ -728,7 +835,7 @@ func runScript(toks []string, emit func(string)) {
 	var r runner
 	var w *world
 	skip := 0
-	switch strings.TrimPrefix(strings.TrimPrefix(kind, "c"), "g") {
+	switch strings.TrimPrefix(strings.TrimPrefix(strings.TrimPrefix(kind, "c"), "g"), "r") {
 	case "tp":
 		optN := 0
 		if bar > 3 {
@@ -835,7 +942,24 @@ func TestVerifC15Child(t *testing.T) {
 				sb.WriteString(s + " ")
 			}
 		}
-		runScript(strings.Fields(l), emit)
+		// watchdog: every call of a script must return ("blocks forever" is an observation, not a stuck harness)
+		wd := 3 * time.Second
+		if ms := atoi(os.Getenv("C15_WATCHDOG_MS")); ms > 0 {
+			wd = time.Duration(ms) * time.Millisecond
+		}
+		fin := make(chan struct{})
+		go func() {
+			defer close(fin)
+			runScript(strings.Fields(l), emit)
+		}()
+		select {
+		case <-fin:
+		case <-time.After(wd):
+			// a deadlocked goroutine cannot be recovered: leave what was observed behind and end the process
+			f.WriteString("\n#hang\n")
+			f.Close()
+			os.Exit(3)
+		}
 		if single {
 			// give goroutines the script started (exporter shutdown goroutines) the time to crash the process
 			time.Sleep(40 * time.Millisecond)
@@ -869,6 +993,10 @@ func runChild(t *testing.T, lines []string, single bool, timeout time.Duration) 
 	timedOut = ctx.Err() != nil
 	b, _ := os.ReadFile(out)
 	s := string(b)
+	if i := strings.Index(s, "\n#hang"); i >= 0 { // the child's own watchdog fired
+		timedOut = true
+		s = s[:i]
+	}
 	done = strings.Contains(s, "#done")
 	for _, l := range strings.Split(s, "\n") {
 		if l == "#done" {
@@ -889,7 +1017,9 @@ func runOne(t *testing.T, line string) string {
 		return obs[0]
 	}
 	if to { // confirm a hang with a doubled timeout (the machine may be busy)
+		os.Setenv("C15_WATCHDOG_MS", "6000")
 		obs, done, to = runChild(t, []string{line}, true, 12*time.Second)
+		os.Unsetenv("C15_WATCHDOG_MS")
 		if done {
 			return obs[0]
 		}
@@ -931,8 +1061,10 @@ func emitAll(t *testing.T, out *vOut, lines []string) {
 		// crash or hang somewhere in the batch: the culprit may be an earlier script's goroutine → all alone
 		for _, l := range batch {
 			o := runOne(t, l)
-			if strings.HasSuffix(o, "panic") || strings.HasSuffix(o, "hang") || strings.Contains(o, "settle!") {
+			if strings.HasSuffix(o, "panic") || strings.Contains(o, "settle!") {
 				crashes++
+			} else if strings.HasSuffix(o, "hang") {
+				crashes += 4 // a confirmed hang costs 9 s
 			}
 			out.Line("%s => %s", l, o)
 		}
@@ -1210,6 +1342,145 @@ func genGate(r *vRand) string {
 	return fmt.Sprintf("gtp gate %s | %s", kindStr(ks), strings.Join(ops, " "))
 }
 
+// genReent: RE-ENTRANT user callbacks. Only combinations that return on the unchanged tree are generated; excluded
+// (remarks R1–R6 in lean/Otel/C15/Reent.lean): ending a span / emitting from inside a SIMPLE processor's Export (the processor's
+// mutex is held), ForceFlush from inside a BATCH processor's / periodic reader's Export (waits for the very goroutine that
+// runs the Export), and Register / Unregister / Shutdown / Tracer from inside a Shutdown callback (provider mutex).
+func genReent(r *vRand) string {
+	live := []string{"b", "b", "b", "f"}
+	hook := func(cbs []string, p int) string {
+		out := ""
+		used := map[byte]bool{}
+		for r.Intn(100) < p {
+			h := vPick(r, cbs)
+			if used[h[0]] {
+				break
+			}
+			used[h[0]] = true
+			out += "@" + h
+			p /= 2
+		}
+		return out
+	}
+	switch r.Intn(5) {
+	case 0, 1, 2:
+		rHooks := []string{"a=sp", "a=ff", "e=sp", "e=ff", "f=sp", "f=ff", "s=sp", "s=ff"}
+		srHooks := []string{"x=ff", "s=sp", "s=sp", "s=ff"}
+		brHooks := []string{"x=sp", "s=sp", "s=ff"}
+		n := 1 + r.Intn(4)
+		ks := make([]string, n)
+		for i := range ks {
+			switch r.Intn(8) {
+			case 0, 1, 2:
+				ks[i] = "r" + hook(rHooks, 70)
+			case 3, 4:
+				ks[i] = "sr" + hook(srHooks, 80)
+			case 5:
+				ks[i] = "br" + hook(brHooks, 80)
+			case 6:
+				ks[i] = vPick(r, []string{"sn", "bn"})
+			default:
+				ks[i] = "r"
+			}
+		}
+		ops := []string{"tr:0"}
+		nops := 3 + r.Intn(18)
+		for len(ops) < nops {
+			x := r.Intn(100)
+			i := r.Intn(n)
+			switch {
+			case x < 25:
+				ops = append(ops, fmt.Sprintf("reg:%d", i))
+			case x < 35:
+				ops = append(ops, fmt.Sprintf("unr:%d", i))
+			case x < 42:
+				if len(ops) > nops/2 {
+					ops = append(ops, "sd:"+vPick(r, live))
+				}
+			case x < 55:
+				ops = append(ops, "ff:"+vPick(r, live))
+			case x < 60:
+				ops = append(ops, fmt.Sprintf("tr:%d", r.Intn(2)))
+			case x < 85:
+				ops = append(ops, fmt.Sprintf("sp:%d", r.Intn(2)))
+			case x < 90:
+				ops = append(ops, fmt.Sprintf("st:%d:%d", r.Intn(2), r.Intn(2)))
+			case x < 95:
+				ops = append(ops, fmt.Sprintf("en:%d", r.Intn(2)))
+			default:
+				if !strings.HasPrefix(ks[i], "r") {
+					ops = append(ops, fmt.Sprintf("psd:%d", i))
+				}
+			}
+		}
+		ops = append(ops, "sd:b", "sp:0", "ff:b")
+		return fmt.Sprintf("rtp reent %s | %s", kindStr(ks), strings.Join(ops, " "))
+	case 3:
+		rHooks := []string{"e=em", "e=ff", "f=em", "f=ff", "s=em", "s=ff"}
+		srHooks := []string{"x=ff", "f=em", "f=ff", "s=em", "s=ff"}
+		brHooks := []string{"x=em", "f=em", "f=ff", "s=em", "s=ff"}
+		n := 1 + r.Intn(3)
+		ks := make([]string, n)
+		for i := range ks {
+			switch r.Intn(6) {
+			case 0, 1:
+				ks[i] = "r" + hook(rHooks, 70)
+			case 2, 3:
+				ks[i] = "sr" + hook(srHooks, 80)
+			case 4:
+				ks[i] = "br" + hook(brHooks, 80)
+			default:
+				ks[i] = vPick(r, []string{"sn", "bn", "r"})
+			}
+		}
+		ops := []string{"lg:0"}
+		for k := 2 + r.Intn(12); k > 0; k-- {
+			x := r.Intn(100)
+			switch {
+			case x < 55:
+				ops = append(ops, fmt.Sprintf("em:%d", r.Intn(2)))
+			case x < 65:
+				ops = append(ops, fmt.Sprintf("lg:%d", r.Intn(2)))
+			case x < 90:
+				ops = append(ops, "ff:"+vPick(r, live))
+			default:
+				ops = append(ops, "sd:"+vPick(r, live))
+			}
+		}
+		ops = append(ops, "sd:b", "em:0", "ff:b")
+		return fmt.Sprintf("rlp reent %s | %s", kindStr(ks), strings.Join(ops, " "))
+	default:
+		pHooks := []string{"x=ad", "f=ad", "f=ff", "s=ad", "s=ff"}
+		n := 1 + r.Intn(3)
+		ks := make([]string, n)
+		for i := range ks {
+			if r.Intn(3) > 0 {
+				ks[i] = "p" + hook(pHooks, 80)
+			} else {
+				ks[i] = "m"
+			}
+		}
+		ops := []string{"mt:0"}
+		for k := 2 + r.Intn(12); k > 0; k-- {
+			x := r.Intn(100)
+			switch {
+			case x < 45:
+				ops = append(ops, fmt.Sprintf("ad:%d", r.Intn(2)))
+			case x < 55:
+				ops = append(ops, fmt.Sprintf("mt:%d", r.Intn(2)))
+			case x < 65:
+				ops = append(ops, fmt.Sprintf("co:%d", r.Intn(n)))
+			case x < 90:
+				ops = append(ops, "ff:"+vPick(r, live))
+			default:
+				ops = append(ops, "sd:"+vPick(r, live))
+			}
+		}
+		ops = append(ops, "sd:b", "ad:0", "ff:b")
+		return fmt.Sprintf("rmp reent %s | %s", kindStr(ks), strings.Join(ops, " "))
+	}
+}
+
 // genConc: every pool component registered at most once in the prefix; 2..8 concurrent callers.
 func genConc(r *vRand) string {
 	switch r.Intn(3) {
@@ -1307,6 +1578,8 @@ func TestVerifC15Life(t *testing.T) {
 			lines = append(lines, genF26(r))
 		case i%25 == 13:
 			lines = append(lines, genNil(r))
+		case i%20 == 19:
+			lines = append(lines, genReent(r))
 		case i%10 < 4:
 			lines = append(lines, genTP(r))
 		case i%10 < 6:
